@@ -31,6 +31,10 @@ C = dict(
         dict(name="sim2t", module="CatalogWatch", cfg="CatalogWatch_PlanSim2t.cfg", simulate={"quick": 30, "thorough": 500},
              depth=13, cap={"quick": 20, "thorough": 300}),
     ],
+    # catalog variant: collection ids whose lexicographic (etcd listing) order is the reverse of their creation order
+    expand_plans=lambda plans, tier: [q for i, p in enumerate(plans) for q in
+                                      ([p] + ([dict(p, plan=str(p["plan"]) + "-dg", params=dict(p.get("params") or {}, idmode="digits"))]
+                                              if (tier == "thorough" or i % 3 == 0 or p.get("src") == "directed") else []))],
     directed="plans/C13.jsonl",
     trace=("CatalogWatch_Trace", "CatalogWatch_Trace.cfg"),
     death="violation",
